@@ -547,7 +547,7 @@ def interface_roundtrip(ctx, K, cfg, out, abi, ch, addr, calls, fail, stats):
     lines0 = K["src"].split("\n")
     k0 = 1 if lines0 and lines0[0].startswith("# pragma") else 0
     isrc = "\n".join(lines0[:k0] + ["import gen_iface", "implements: gen_iface"] + lines0[k0:])
-    # (user-defined types are nominal per module, so only signatures without structs/flags can match across the .vyi)
+    # (user-defined types -- structs, flags, interfaces -- are nominal per module, so only signatures without them can match across the .vyi)
     def user_types(K):
         ts = [t for f in K["funcs"] for _, t in f["pos"]] + [k[1] for f in K["funcs"] for k in f["kws"]] + \
              [t for f in K["funcs"] for _, t in f["ret"]]
@@ -557,7 +557,7 @@ def interface_roundtrip(ctx, K, cfg, out, abi, ch, addr, calls, fail, stats):
                 ts.append(p[1])
                 p = p[2]
             ts.append(p[1])
-        return any(G.contains(t, ("struct", "flag")) for t in ts)
+        return any(G.contains(t, ("struct", "flag", "iface")) for t in ts)
     with warnings.catch_warnings():
         warnings.simplefilter("ignore")
         try:
